@@ -198,7 +198,7 @@ def method_constraint_probe(ck):
 def run(ck):
   rng = ck.rng
   method_constraint_probe(ck)
-  n = 40 if ck.tier == 'quick' else 5000
+  n = 200 if ck.tier == 'quick' else 5000
   lines, meta = [], []
   for _ in range(n):
     d = rtlgen.generate_slices(rng) if rng.random() < 0.3 else rtlgen.generate(rng, max_blocks=8)
@@ -236,7 +236,7 @@ def run(ck):
       if got != y:
         ck.disagreement('SimpleSchedulePass≈Kahn(any pick)', {'source': src, 'order': y}, got, y)
   # explicit constraints
-  m = 12 if ck.tier == 'quick' else 1200
+  m = 60 if ck.tier == 'quick' else 1200
   made = 0
   tries = 0
   while made < m and tries < m * 6:
